@@ -8,7 +8,8 @@ export CARGO_NET_OFFLINE=true
 OUT=OUT/confirm$K.txt
 : > $OUT
 git checkout -q -- . ; rm -rf tests
-FEAT="curve25519,argon2"
+FEAT="curve25519,argon2,std"
+REL=""; grep -q -- "--release" OUT/demo$K.rs && REL="--release"
 echo "features for demo: $FEAT" >> $OUT
 git apply --check OUT/patch$K.diff 2>>$OUT || { echo "RESULT: patch does not apply" >> $OUT; exit 1; }
 git diff --quiet || { echo "RESULT: tree dirty" >> $OUT; exit 1; }
@@ -19,10 +20,10 @@ T=$(cargo test --workspace --no-fail-fast --offline 2>&1 | grep -E "^test result
 echo "suite with patch: $T" >> $OUT
 echo "$T" | grep -q "91 passed; 0 failed" || { echo "RESULT: existing suite does not pass with patch" >> $OUT; git checkout -q -- .; exit 1; }
 mkdir -p tests; cp OUT/demo$K.rs tests/demo$K.rs
-D1=$(cargo test --offline --features "$FEAT" --test demo$K 2>&1 | grep -E "^test result|^error(\[|:)" | head -3)
+D1=$(cargo test --offline $REL --features "$FEAT" --test demo$K 2>&1 | grep -E "^test result|^error(\[|:)" | head -3)
 echo "demo with patch: $D1" >> $OUT
 git checkout -q -- .
-D2=$(cargo test --offline --features "$FEAT" --test demo$K 2>&1 | grep -E "^test result|^error(\[|:)" | head -3)
+D2=$(cargo test --offline $REL --features "$FEAT" --test demo$K 2>&1 | grep -E "^test result|^error(\[|:)" | head -3)
 echo "demo without patch: $D2" >> $OUT
 rm -rf tests
 if echo "$D1" | grep -q "FAILED" && echo "$D2" | grep -q "test result: ok" ; then echo "RESULT: CONFIRMED" >> $OUT; exit 0; fi
